@@ -146,4 +146,8 @@ def run(ctx, report: Report) -> None:
     from .sem import select_limit_table
     select_limit_table(ctx, r2)
 
+    from .sem import identity_table
+    identity_table(ctx, r3)
+
+
 
